@@ -164,6 +164,12 @@ def tr_expr(fn, node, env):
     p = path_of(node)
     if p is not None and p in env:
         return env[p]
+    # [srclabels] unit-specific expressions (Ext.expr(fn, node, env) -> (g, Ty) | None): tuples, subscripts, `is` / `in`
+    # between values of unit types, ... ; consulted before the built-in cases, None = not mine
+    if getattr(fn.ext, "expr", None) is not None:
+        r = fn.ext.expr(fn, node, env)
+        if r is not None:
+            return r
     if isinstance(node, ast.Constant):
         v = node.value
         if v is None:
@@ -547,6 +553,13 @@ def tr_block(fn, stmts, env, k):
         return wrap_pending(fn, pend, "let %s := %s in\n%s" % (v, g, tr_block(fn, rest, e2, k)))
     if isinstance(s, ast.Pass):
         return tr_block(fn, rest, env, k)
+    # [srclabels] `raise <expr>` in a pure function whose value says whether an exception left it (Ext.raise_): the unit
+    # decides whether it can read the raised expression (Ext.raise_stmt(fn, stmt, env): returns, or raises Unsupported)
+    if isinstance(s, ast.Raise) and getattr(fn.ext, "raise_stmt", None) is not None:
+        if rest:
+            _bad("statements after raise", rest[0])
+        fn.ext.raise_stmt(fn, s, env)
+        return wrap_pending(fn, fn.take_pending(), fn.ext.raise_)
     _bad("statement %s" % type(s).__name__, s)
 
 
